@@ -49,7 +49,7 @@ def warm():
 
 def sizes(tier):
     if tier == "thorough":
-        return {"runs": 120000, "block": 200, "det": 64, "det_fresh": 8, "timeout": 3300, "stationary_every": 8}
+        return {"runs": 120000, "block": 200, "det": 64, "det_fresh": 8, "timeout": 6500, "stationary_every": 8}
     return {"runs": 3200, "block": 40, "det": 24, "det_fresh": 6, "timeout": 900, "stationary_every": 8}
 
 
